@@ -213,7 +213,11 @@ def library_ranges(rng):
     if rng.random() < 0.6:
         g.lines.append("cursor %x" % rng.choice([ehi, ehi - 1, ehi - 3, elo, elo + 1]))
     else:
-        g.lines[-1] = "rand %x" % rng.choice([ehi - elo, ehi - elo - 1, ehi - elo + 1, 0, 0xffffffff, 0x7fffffff, 0x80000000])
+        r = "rand %x" % rng.choice([ehi - elo, ehi - elo - 1, ehi - elo + 1, 0, 0xffffffff, 0x7fffffff, 0x80000000])
+        if g.lines[-1].startswith("rand"):
+            g.lines[-1] = r
+        else:
+            g.lines.append(r)
     for _ in range(rng.randrange(2, 25)):
         x = rng.random()
         if x < 0.6:
